@@ -194,6 +194,9 @@ def _check(rep, pid, tier):
         v_wo_strjoin=("MC_WinObj.tla", cfg("OSpec", dict(small_wo, StrJoin="chars"), WO_INV), False, 2),
         v_wo_seed=("MC_WinObj.tla", cfg("OSpec", dict(small_wo, SeedParam="write"), WO_INV), False, 2),
     )
+    if not thorough:
+        for k in ("v_nd_ffkeep", "v_ut_swap", "v_wr_bohr", "v_wo_seed"):
+            del jobs[k]
     if thorough:
         wr2_c = dict(GOOD, StyleSet="few", Product="full")
         jobs["wr_full"] = ("MC_WinRead.tla", cfg("Spec", wr2_c, WR_INV), True, 4)
@@ -397,12 +400,13 @@ def _check(rep, pid, tier):
     def win_corrupt():
         out = []
         for kind in ("roundtrip", "read", "write"):
+            n = 0
             for j, r in enumerate(win_recs):
-                if r["kind"] == kind:
+                if r["kind"] == kind and n < 6:
                     b, clause = WR.corrupt(r)
                     if b is not None:
                         out.append((b, {clause}, j))
-                        break
+                        n += 1
         return out
 
     batches = dict(nd=("NeededDataRec.tla", ftable.REC_CFG, nd_recs, [(b, c, None) for b, c in nd_corrupt()]),
@@ -432,15 +436,14 @@ def _check(rep, pid, tier):
         caught = {}
         for j, (b, clauses, src) in enumerate(bads):
             got = set(bad.pop(len(recs) + j, []))
-            src_bad = set(c_ for c_ in bad.get(src, []) if not c_.startswith(INFO_PREFIX)) if src is not None else set()
-            if src_bad:
-                caught[j] = "skipped: TLC rejects the uncorrupted record itself"
-                continue
-            if not (got & clauses):
+            src_bad = set(bad.get(src, [])) if src is not None else set()
+            if clauses <= src_bad:
+                continue                 # TLC rejects the uncorrupted record by the same clause (see the violations): not usable
+            if not (got & (clauses - src_bad)):
                 raise MachineryError(f"binding self-test failed ({name}): corrupted record accepted (expected one of {sorted(clauses)}, TLC says {sorted(got)})")
             caught[j] = sorted(got & clauses)
-        if not bads and not rep.violations:
-            raise MachineryError(f"binding self-test ({name}): no record to corrupt")
+        if not caught and not rep.violations:
+            raise MachineryError(f"binding self-test ({name}): no usable record to corrupt")
         selftest[name] = caught
         stv["distinct"] -= len(bads)
         stv["generated"] -= 2 * len(bads)
@@ -611,6 +614,7 @@ def third_party_observations(wd):
     rd(base + "dist_cutoff_mode = three_dim\nfermi_surface_plot_format = full\n", "strings_starting_with_t_or_f_become_booleans",
        lambda w: dict(dist_cutoff_mode=repr(w.data.get("dist_cutoff_mode")), fermi_surface_plot_format=repr(w.data.get("fermi_surface_plot_format"))))
     rd(base.replace("0 0 0\n0.5", "0 0 0 ! gamma\n0.5"), "comment_after_a_kpoint_joins_two_lines", lambda w: dict(kpoints=w["kpoints"].tolist(), mp_grid=[int(x) for x in w["mp_grid"]]))
+    rd(base + "exclude_bands = 1, 2, 3, 5\n", "list_separated_by_comma_and_blank", lambda w: dict(exclude_bands=repr(w.data.get("exclude_bands"))))
     rd(base.replace("0 0 0\n0.5", "0 0 0\n\n0.5"), "blank_line_inside_kpoints", lambda w: dict(kpoints=w["kpoints"].tolist()))
     rd("begin unit_cell_cart\n2 0 0\n0 2 0\n0 0 4\nend unit_cell_cart\nnum_wann = 1\n", "file_without_kpoints", lambda w: "read")
     rd(base.replace("begin atoms_frac\nFe 0 0 0\nend atoms_frac\n", "").replace("begin unit_cell_cart\n2 0 0\n0 2 0\n0 0 4\nend unit_cell_cart\n", ""),
